@@ -163,7 +163,11 @@ func init() {
 	// JSON encoders writing responses: event stub.
 	symExternals["(*encoding/json.Encoder).Encode"] = func(fr *frame, args []value) value {
 		X.Events = append(X.Events, "json.Encode")
+		X.jsonVals = append(X.jsonVals, args[1])
 		return iface{}
+	}
+	symExternals[rtPkg+"JSONEncoded"] = func(fr *frame, args []value) value {
+		return append([]value{}, X.jsonVals...)
 	}
 	symExternals["encoding/json.NewEncoder"] = func(fr *frame, args []value) value {
 		return (*value)(nil)
